@@ -3,6 +3,7 @@ mod driver;
 mod model;
 mod proj;
 mod tokens;
+mod worker;
 mod props;
 
 use driver::{Opts, Tier};
@@ -37,6 +38,10 @@ fn main() {
     let args: Vec<String> = std::env::args().skip(1).collect();
     if args.is_empty() {
         usage();
+    }
+    if args[0] == "worker" {
+        worker::worker_main();
+        return;
     }
     if args[0] == "setup" {
         println!("vharness built; nothing else to set up");
